@@ -88,6 +88,20 @@ def liftE {α : Type} : Except Tenant.Err α → Except Err α
   | .ok a => .ok a
   | .error e => .error (.base e)
 
+/-! ### the two shapes every mutating wrapper has -/
+
+/-- authorize, then delegate: nothing is touched when the check fails -/
+def guarded (g : Except Err Unit) (s : St) (k : Res Nat) : Res Nat :=
+  match g with
+  | .error e => (s, .error e)
+  | .ok _ => k
+
+/-- fetch the target, authorize on what was fetched, then delegate -/
+def fetchGuard {β : Type} (fetch : Except Err β) (g : β → Except Err Unit) (s : St) (k : Res Nat) : Res Nat :=
+  match fetch with
+  | .error e => (s, .error e)
+  | .ok b => guarded (g b) s k
+
 /-! ### bucket.go -/
 
 def getBucket (s : St) (id : Nat) : Except Err BucketRec :=
@@ -126,27 +140,18 @@ def findBuckets (c : Caller) (s : St) (org : Option Nat) : Except Err (List (Nat
 
 /-- `CreateBucket`: AuthorizeCreate(buckets, org) then delegate -/
 def createBucket (c : Caller) (s : St) (org : Nat) (name : String) (sys : Bool) : Res Nat :=
-  match authorize c WriteAction BucketsResourceType none (some org) with
-  | .error e => (s, .error e)
-  | .ok _ => liftT s (Tenant.createBucket s.t org name sys)
+  guarded (authorize c WriteAction BucketsResourceType none (some org)) s
+    (liftT s (Tenant.createBucket s.t org name sys))
 
 /-- `UpdateBucket`: fetch, AuthorizeWrite(buckets, id, org), delegate -/
 def updateBucket (c : Caller) (s : St) (id : Nat) (name : Option String) : Res Nat :=
-  match getBucket s id with
-  | .error e => (s, .error e)
-  | .ok b => match authorize c WriteAction BucketsResourceType (some id) (some b.org) with
-    | .error e => (s, .error e)
-    | .ok _ => liftT s (Tenant.updateBucket s.t id name)
+  fetchGuard (getBucket s id) (fun b => authorize c WriteAction BucketsResourceType (some id) (some b.org)) s
+    (liftT s (Tenant.updateBucket s.t id name))
 
 /-- `DeleteBucket` -/
 def deleteBucket (c : Caller) (s : St) (id : Nat) : Res Nat :=
-  match getBucket s id with
-  | .error e => (s, .error e)
-  | .ok b => match authorize c WriteAction BucketsResourceType (some id) (some b.org) with
-    | .error e => (s, .error e)
-    | .ok _ =>
-      let r := Tenant.deleteBucket s.t id false
-      liftT s (r.1, r.2.map fun _ => id)
+  fetchGuard (getBucket s id) (fun b => authorize c WriteAction BucketsResourceType (some id) (some b.org)) s
+    (liftT s ((Tenant.deleteBucket s.t id false).1, (Tenant.deleteBucket s.t id false).2.map fun _ => id))
 
 /-! ### org.go -/
 
@@ -194,19 +199,13 @@ def findOrgs (c : Caller) (s : St) : Except Err (List Nat) :=
 /-- `CreateOrganization`: AuthorizeWriteGlobal(orgs); the wrapped service sees the caller's user
     on the context and makes it the owner -/
 def createOrg (c : Caller) (s : St) (name : String) : Res Nat :=
-  match authorize c WriteAction OrgsResourceType none none with
-  | .error e => (s, .error e)
-  | .ok _ => liftT s (Tenant.createOrganization s.t name c.user)
+  guarded (authorize c WriteAction OrgsResourceType none none) s (liftT s (Tenant.createOrganization s.t name c.user))
 
 def updateOrg (c : Caller) (s : St) (id : Nat) (name : Option String) : Res Nat :=
-  match authorize c WriteAction OrgsResourceType (some id) none with
-  | .error e => (s, .error e)
-  | .ok _ => liftT s (Tenant.updateOrganization s.t id name)
+  guarded (authorize c WriteAction OrgsResourceType (some id) none) s (liftT s (Tenant.updateOrganization s.t id name))
 
 def deleteOrg (c : Caller) (s : St) (id : Nat) : Res Nat :=
-  match authorize c WriteAction OrgsResourceType (some id) none with
-  | .error e => (s, .error e)
-  | .ok _ => liftT s (Tenant.deleteOrganization s.t id)
+  guarded (authorize c WriteAction OrgsResourceType (some id) none) s (liftT s (Tenant.deleteOrganization s.t id))
 
 /-! ### user.go -/
 
@@ -228,19 +227,13 @@ def findUsers (c : Caller) (s : St) : Except Err (List Nat) :=
   filterAuthorized (fun u => authorize c ReadAction UsersResourceType (some u) none) (s.t.users.map (·.1))
 
 def createUser (c : Caller) (s : St) (name : String) (id : Nat) : Res Nat :=
-  match authorize c WriteAction UsersResourceType none none with
-  | .error e => (s, .error e)
-  | .ok _ => liftT s (Tenant.createUser s.t name id)
+  guarded (authorize c WriteAction UsersResourceType none none) s (liftT s (Tenant.createUser s.t name id))
 
 def updateUser (c : Caller) (s : St) (id : Nat) (name : Option String) : Res Nat :=
-  match authorize c WriteAction UsersResourceType (some id) none with
-  | .error e => (s, .error e)
-  | .ok _ => liftT s (Tenant.updateUser s.t id name)
+  guarded (authorize c WriteAction UsersResourceType (some id) none) s (liftT s (Tenant.updateUser s.t id name))
 
 def deleteUser (c : Caller) (s : St) (id : Nat) : Res Nat :=
-  match authorize c WriteAction UsersResourceType (some id) none with
-  | .error e => (s, .error e)
-  | .ok _ => liftT s (Tenant.deleteUser s.t id)
+  guarded (authorize c WriteAction UsersResourceType (some id) none) s (liftT s (Tenant.deleteUser s.t id))
 
 /-! ### the wrapped token service (authorization/service.go, raw tokens) -/
 
@@ -317,27 +310,15 @@ def findAuths (c : Caller) (s : St) : Except Err (List (Nat × AuthRec)) :=
 /-- `CreateAuthorization`: AuthorizeCreate(authorizations, org), AuthorizeWriteResource(users, user),
     VerifyPermissions, then delegate -/
 def createAuth (c : Caller) (s : St) (a : AuthRec) : Res Nat :=
-  match authorize c WriteAction AuthorizationsResourceType none (some a.org) with
-  | .error e => (s, .error e)
-  | .ok _ => match authorize c WriteAction UsersResourceType (some a.user) none with
-    | .error e => (s, .error e)
-    | .ok _ => match verifyPermissions c a.perms with
-      | .error e => (s, .error e)
-      | .ok _ => createAuthSvc s a
+  guarded (authorize c WriteAction AuthorizationsResourceType none (some a.org)) s <|
+  guarded (authorize c WriteAction UsersResourceType (some a.user) none) s <|
+  guarded (verifyPermissions c a.perms) s (createAuthSvc s a)
 
 def updateAuth (c : Caller) (s : St) (id : Nat) (active : Bool) : Res Nat :=
-  match getAuth s id with
-  | .error e => (s, .error e)
-  | .ok a => match authorizeWriteAuth c id a with
-    | .error e => (s, .error e)
-    | .ok _ => updateAuthSvc s id active
+  fetchGuard (getAuth s id) (fun a => authorizeWriteAuth c id a) s (updateAuthSvc s id active)
 
 def deleteAuth (c : Caller) (s : St) (id : Nat) : Res Nat :=
-  match getAuth s id with
-  | .error e => (s, .error e)
-  | .ok a => match authorizeWriteAuth c id a with
-    | .error e => (s, .error e)
-    | .ok _ => deleteAuthSvc s id
+  fetchGuard (getAuth s id) (fun a => authorizeWriteAuth c id a) s (deleteAuthSvc s id)
 
 /-! ### operations and observations -/
 
